@@ -158,7 +158,7 @@ round7 = {
  "C08": " Stale-handle part: a live feed on a collection that was dropped and re-created must survive another handle's lookup of that collection by name.",
  "C11": " Failed-view-query part: a view query that fails part-way on a sibling collection must not keep the other collections from answering (10 s per probe). The sibling's index is also created with a filter that has a top-level OR.",
  "C12": " stale given as the string false and as the bool false are judged like an absent stale.",
- "C15": " A third of the checkpoint scenarios use a KeysOnly feed.",
+ "C15": " A third of the checkpoint scenarios use a KeysOnly feed. Queued-rewrite part: keys are written again behind later ones while the feed's callback is parked; after a PRNG-chosen number of callbacks the feed is stopped and resumed: every key's final version must have been delivered and the checkpoint must not pass anything undelivered.",
  "C19": " LIKE is judged case-insensitively over ids in both cases; numeric arguments are handed over as several Go integer types.",
  "C20": " Shutdown kind close+delete: the last open handle is closed while the bucket is deleted through a handle that was closed before.",
 }
